@@ -126,8 +126,26 @@ pub fn last_panic() -> String {
     LAST_PANIC.with(|p| p.borrow().clone())
 }
 
+thread_local! {
+    /// one input buffer per thread, refilled for every conversion: consecutive inputs of the same byte length
+    /// sit at the same address, as they do for a caller that reads into a reused String (a library that
+    /// remembers anything by the address of its input is wrong for such a caller)
+    static INPUT_BUF: std::cell::RefCell<String> = std::cell::RefCell::new(String::with_capacity(1 << 16));
+}
+
 /// run one library entry point; Err carries the panic message
 pub fn convert(input: &str, s: &Sett, e: Entry) -> Result<String, String> {
+    // take the buffer out of the cell for the duration of the call (convert is re-entered by no one, but a
+    // panic must not leave the cell borrowed)
+    let mut buf = INPUT_BUF.with(|b| std::mem::take(&mut *b.borrow_mut()));
+    buf.clear();
+    buf.push_str(input);
+    let r = convert_in(&buf, s, e);
+    INPUT_BUF.with(|b| *b.borrow_mut() = buf);
+    r
+}
+
+fn convert_in(input: &str, s: &Sett, e: Entry) -> Result<String, String> {
     let r = catch_unwind(AssertUnwindSafe(|| match e {
         Entry::ToSvg => svgbob::to_svg(input),
         Entry::Pretty => svgbob::to_svg_string_pretty(input),
